@@ -147,12 +147,22 @@ class GapAnalysis:
                             if a and isinstance(e, ast.Name):
                                 self.env[e.id] = a
 
-        def visit(stmts):
+        def visit(stmts, fallback_for=frozenset()):
             for s in stmts:
                 if isinstance(s, (ast.FunctionDef, ast.AsyncFunctionDef)):
                     continue
+                # `if (dot := <lookup>) is not None:` binds like an assignment
+                heads = [s.test] if isinstance(s, (ast.If, ast.While)) else ([s.value] if isinstance(s, (ast.Assign, ast.AnnAssign, ast.Expr, ast.Return)) and getattr(s, "value", None) is not None else [])
+                for h in heads:
+                    for w in ast.walk(h):
+                        if isinstance(w, ast.NamedExpr) and isinstance(w.target, ast.Name):
+                            bind_targets([w.target], w.value)
                 if isinstance(s, (ast.Assign, ast.AnnAssign)) and getattr(s, "value", None) is not None:
-                    bind_targets(s.targets if isinstance(s, ast.Assign) else [s.target], s.value)
+                    tg = s.targets if isinstance(s, ast.Assign) else [s.target]
+                    # `x = <lookup>; if x is None: x = <fallback>` keeps the first choice as the anchor (the same order of
+                    # preference as `a if a is not None else b`)
+                    if not (len(tg) == 1 and isinstance(tg[0], ast.Name) and tg[0].id in fallback_for and tg[0].id in self.env):
+                        bind_targets(tg, s.value)
                 if isinstance(s, ast.For):
                     loopvar = s.target.id if isinstance(s.target, ast.Name) else None
                     comment_arm = False
@@ -198,7 +208,11 @@ class GapAnalysis:
                     visit(s.orelse)
                     continue
                 if isinstance(s, ast.If):
-                    visit(s.body)
+                    t = s.test
+                    none_of = frozenset([t.left.id]) if (isinstance(t, ast.Compare) and len(t.ops) == 1 and isinstance(t.ops[0], ast.Is)
+                                                         and isinstance(t.left, ast.Name) and isinstance(t.comparators[0], ast.Constant)
+                                                         and t.comparators[0].value is None) else frozenset()
+                    visit(s.body, none_of)
                     visit(s.orelse)
                     continue
                 if isinstance(s, (ast.With, ast.Try, ast.While)):
